@@ -268,6 +268,45 @@ def to_frame(pd, rows, with_cost, int_dtype=False):
   return df
 
 
+# Declared semantics: the frame may name its columns and code its groups / periods differently, provided fit() is
+# told (key_*, group_*, period_* keyword arguments).  Half of the frames use the library defaults.
+SEMANTICS = {
+    3: {'names': {}, 'group': {CONTROL: 7, TREATMENT: 3, NOGROUP: 0}, 'period': {PRE: 5, TEST: 6, COOL: 4, NOPERIOD: 9}},
+    4: {'names': {'date': 'day', 'geo': 'market', 'group': 'arm', 'period': 'phase', 'response': 'sales',
+                  'cost': 'spend'}, 'group': {}, 'period': {}},
+    # the default codes, permuted: code that ignores the declaration reads the wrong group / period
+    5: {'names': {'date': 'day', 'geo': 'market', 'group': 'arm', 'period': 'phase', 'response': 'sales',
+                  'cost': 'spend'},
+        'group': {CONTROL: 2, TREATMENT: 1, NOGROUP: -1}, 'period': {PRE: 2, TEST: 0, COOL: 1, NOPERIOD: -1}},
+}
+
+
+def semantic_variant(df):
+  """Which declared semantics a frame is presented under (deterministic in its content)."""
+  return (len(df) * 5 + int(abs(float(df['response'].sum())))) % 6
+
+
+def relabel(df, variant):
+  """(frame under the declared semantics, keyword arguments for fit(), name of the response column)."""
+  sem = SEMANTICS.get(variant)
+  if sem is None:
+    return df, {}, 'response'
+  d = df.copy()
+  kw = {}
+  if sem['group']:
+    d['group'] = d['group'].map(sem['group']).astype(int)
+    kw.update(group_control=sem['group'][CONTROL], group_treatment=sem['group'][TREATMENT],
+              group_unassigned=sem['group'][NOGROUP])
+  if sem['period']:
+    d['period'] = d['period'].map(sem['period']).astype(int)
+    kw.update(period_pre=sem['period'][PRE], period_test=sem['period'][TEST], period_cooldown=sem['period'][COOL],
+              period_unassigned=sem['period'][NOPERIOD])
+  if sem['names']:
+    d = d.rename(columns=sem['names'])
+    kw.update({'key_' + k: v for k, v in sem['names'].items() if k in df.columns})
+  return d, kw, sem['names'].get('response', 'response')
+
+
 def close(got, exp, scale=1.0, rel=1e-9):
   return abs(got - exp) <= rel * max(1.0, abs(exp), abs(scale))
 
@@ -285,9 +324,10 @@ def level_finding(level, tails):
   return tails == 1 and level <= 0.5
 
 
-def refit_prelude(model, df, iroas=False):
+def refit_prelude(model, df, iroas=False, variant=0):
   """A re-fit is a fit: the object is first fitted on a different frame of the same layout and asked for every report
-  (so that anything it memoises is filled), then fitted on the frame under test. Returns True when the prelude ran."""
+  (so that anything it memoises is filled), then fitted on the frame under test. Returns True when the prelude ran.
+  df is the frame under the default semantics; variant the declared semantics of the frame under test."""
   import numpy as np
   if int(abs(float(df['response'].sum())) * 7 + len(df)) % 2:
     return False
@@ -296,9 +336,10 @@ def refit_prelude(model, df, iroas=False):
   d2['response'] = d2['response'].astype(float) * 3.0 + (k % 5) ** 2
   if 'cost' in d2.columns:
     d2['cost'] = d2['cost'].astype(float) * 2.0 + (k % 3)
+  d2, kw, target = relabel(d2, variant)
   try:
     if iroas:
-      model.fit(d2)
+      model.fit(d2, **kw)
       for call in (lambda: model.summary(nsims=40, random_state=0),
                    lambda: model.estimate_pointwise_and_cumulative_effect(metric='tbr_response'),
                    lambda: model.estimate_pointwise_and_cumulative_effect(metric='tbr_cost')):
@@ -307,7 +348,7 @@ def refit_prelude(model, df, iroas=False):
         except Exception:  # pylint: disable=broad-except
           pass
     else:
-      model.fit(d2, 'response')
+      model.fit(d2, target, **kw)
       model.summary(report='all')
       model.causal_cumulative_distribution()
   except Exception:  # pylint: disable=broad-except
@@ -323,8 +364,10 @@ def check_tbr(mods, c, exp, rows, meta, uc, combos, with_cost, int_dtype, matche
   ndays = c['ntest'] + (c['ncool'] if uc else 0)
   try:
     m = tbr.TBR(use_cooldown=uc)
-    refit_prelude(m, df)
-    m.fit(df, 'response')
+    variant = semantic_variant(df)
+    refit_prelude(m, df, variant=variant)
+    fdf, kw, target = relabel(df, variant)
+    m.fit(fdf, target, **kw)
     dist = m.causal_cumulative_distribution()
     got_df = float(dist.args[0])
     loc = np.asarray(dist.kwds['loc'], dtype=float).flatten()
